@@ -1,3 +1,5 @@
+import os as _os
+_K = {"VERIF_KNOWN": _os.environ.get("C31_KNOWN", "/tmp/c31-known.jsonl")}  # TEMPORARY (development only)
 PROP = dict(
     level="fault_enumeration",
     design_ref="DESIGN.md §3 C31, §4 F-C31-1",
@@ -26,7 +28,7 @@ PROP = dict(
                  "the download cache, when on, holds only entries placed by Download itself or an honest entry for the digest",
                  "a stale .partial next to a call satisfied from the download cache is not judged (the statement is silent on it)"],
     engines=[
-        gt("enum", "store", "TestVerifC31Enum", dict(shards=3), dict(shards=16), rapid=False, env={"VERIF_KNOWN": "/tmp/c31-known.jsonl"}),
-        gt("random", "store", "TestVerifC31Random", dict(checks=1500, shards=2), dict(checks=30000, shards=16), env={"VERIF_KNOWN": "/tmp/c31-known.jsonl"}),
+        gt("enum", "store", "TestVerifC31Enum", dict(shards=3), dict(shards=16), rapid=False, env=_K),
+        gt("random", "store", "TestVerifC31Random", dict(checks=1000, shards=2), dict(checks=30000, shards=16), env=_K),
     ],
 )
